@@ -99,9 +99,12 @@ class PolarizedRays(RealRays):
         s = np.cross(k0, k1)
         mag = np.linalg.norm(s, axis=1)
 
-        # handle case when mag = 0 (i.e., k0 parallel to k1)
-        if np.any(mag == 0):
-            s[mag == 0] = np.cross(k0[mag == 0], np.array([1.0, 0.0, 0.0]))
+        # handle case when k0 is parallel to k1 (within rounding: the cross
+        # product of two nearly equal unit vectors is rounding noise, which
+        # normalised gives an arbitrary, non-perpendicular s)
+        parallel = mag < 1e-12
+        if np.any(parallel):
+            s[parallel] = np.cross(k0[parallel], np.array([1.0, 0.0, 0.0]))
             mag = np.linalg.norm(s, axis=1)
 
         s /= mag[:, np.newaxis]
